@@ -766,3 +766,185 @@ func VfVersions() {
 		zzvf.Assert(ia > ib, "versions-are-listed-newest-first")
 	}
 }
+
+// ---- C11: crash at every file-system step
+
+// vfConsistent: the key is in a complete state: either absent, or data/size/ETag belong together (ETag = quoted hex MD5 of the data).
+func vfKeyState(p *Posix, key string) (present bool, data []byte, etag string, ok bool) {
+	g, err := p.GetObject(vfCtx(), &s3.GetObjectInput{Bucket: vfStr("bkt"), Key: &key, Range: vfStr("")})
+	if err != nil {
+		return false, nil, "", true
+	}
+	got, rerr := io.ReadAll(g.Body)
+	if rerr != nil || g.ETag == nil || g.ContentLength == nil {
+		return true, got, "", false
+	}
+	return true, got, *g.ETag, *g.ContentLength == int64(len(got))
+}
+
+func vfQuotedMD5(b []byte) string {
+	sum := zzvf.SumMD5(b)
+	return "\"" + hex.EncodeToString(sum[:]) + "\""
+}
+
+// VfCrash: C11 – the gateway is killed at an arbitrary file-system step of PutObject (new key / overwrite) or DeleteObject;
+// a fresh gateway then finds the key in its complete previous or complete new state, temporary data is invisible and
+// blocks nothing (re-upload, delete, bucket deletion).
+func VfCrash() {
+	vfWorld()
+	zzvfos.M.OTmpfile = zzvf.Choice("otmpfile_supported", 2) == 1
+	cfg := vfConfig{}
+	p := vfNewPosix(cfg)
+	vfMustBucket(p, "bkt")
+	key := "k"
+	one := int64(1)
+	existing := zzvf.Choice("key_exists", 2) == 1
+	oldBody := []byte("O")
+	if existing {
+		_, err := p.PutObject(vfCtx(), s3response.PutObjectInput{Bucket: vfStr("bkt"), Key: &key, Body: bytes.NewReader(oldBody), ContentLength: &one,
+			Metadata: map[string]string{"gen": "old"}})
+		zzvf.Assert(err == nil, "setup-old-object")
+	}
+	op := zzvf.Choice("operation", 2)
+	newBody := zzvf.BytesN("new_body", 1)
+	crashAt := zzvf.Choice("crash_at_step", 40)
+	zzvf.Bound("crash_steps_max", 40)
+	start := zzvfos.M.Steps
+	zzvfos.M.StepHook = func(opname, path string) {
+		if zzvfos.M.Steps-start == crashAt+1 {
+			zzvf.Trace("crash before " + opname + " " + path)
+			zzvf.Abort()
+		}
+	}
+	var opErr error
+	crashed := zzvf.CatchAbort(func() {
+		if op == 0 {
+			_, opErr = p.PutObject(vfCtx(), s3response.PutObjectInput{Bucket: vfStr("bkt"), Key: &key, Body: bytes.NewReader(newBody), ContentLength: &one,
+				Metadata: map[string]string{"gen": "new"}})
+		} else {
+			_, opErr = p.DeleteObject(vfCtx(), &s3.DeleteObjectInput{Bucket: vfStr("bkt"), Key: &key})
+		}
+	})
+	zzvfos.M.StepHook = nil
+	if !crashed {
+		zzvf.Assume(zzvfos.M.Steps-start <= crashAt) // crash points beyond the operation's last step: nothing to explore
+		zzvf.Reach("completed-without-crash")
+		zzvf.Assert(zzvf.Or(opErr == nil, op == 1 && !existing), "operation-succeeds")
+	} else {
+		zzvf.Reach("crashed")
+	}
+	// restart
+	q := vfNewPosix(cfg)
+	present, data, etag, coherent := vfKeyState(q, key)
+	zzvf.Assert(coherent, "length-matches-data-after-crash")
+	isOld := zzvf.And(present, zzvf.BytesEq(data, oldBody), etag == vfQuotedMD5(oldBody))
+	isNew := zzvf.And(present, zzvf.BytesEq(data, newBody), etag == vfQuotedMD5(newBody))
+	if op == 0 {
+		if existing {
+			zzvf.Assert(zzvf.Or(isOld, isNew), "overwrite-leaves-complete-old-or-complete-new-object")
+		} else {
+			zzvf.Assert(zzvf.Or(!present, isNew), "new-key-is-absent-or-complete")
+		}
+		if !crashed {
+			zzvf.Assert(isNew, "acknowledged-upload-persists")
+		}
+	} else if existing {
+		zzvf.Assert(zzvf.Or(!present, isOld), "delete-leaves-complete-object-or-nothing")
+	}
+	// leftovers are invisible and block nothing
+	mk := int32(100)
+	l, err := q.ListObjectsV2(vfCtx(), &s3.ListObjectsV2Input{Bucket: vfStr("bkt"), Prefix: vfStr(""), ContinuationToken: vfStr(""),
+		Delimiter: vfStr(""), StartAfter: vfStr(""), MaxKeys: &mk})
+	zzvf.Assert(err == nil, "listing-works-after-crash")
+	if err == nil {
+		for _, o := range l.Contents {
+			zzvf.Assert(*o.Key == key, "no-temporary-data-in-listing")
+		}
+	}
+	again := []byte("A")
+	_, err = q.PutObject(vfCtx(), s3response.PutObjectInput{Bucket: vfStr("bkt"), Key: &key, Body: bytes.NewReader(again), ContentLength: &one})
+	zzvf.Assert(err == nil, "upload-works-after-crash")
+	_, err = q.DeleteObject(vfCtx(), &s3.DeleteObjectInput{Bucket: vfStr("bkt"), Key: &key})
+	zzvf.Assert(err == nil, "delete-works-after-crash")
+	zzvf.Assert(q.DeleteBucket(vfCtx(), "bkt") == nil, "bucket-deletion-works-after-crash")
+}
+
+// ---- C05: interleavings on one key
+
+// VfInterleave: C05 – a reader (GET) and a writer (overwriting PUT, or DELETE) on one key of an existing object.
+// Schedules explored: one of the two operations runs to completion between two file-system steps of the other, for every
+// such position (either nesting direction). Oracle: a successful GET returns the complete body of exactly one write
+// together with that write's ETag; a key that exists and is only being overwritten never reads as missing; a GET that
+// starts after the overwrite was acknowledged returns the new object.
+func VfInterleave() {
+	vfWorld()
+	zzvfos.M.OTmpfile = zzvf.Choice("otmpfile_supported", 2) == 1
+	p := vfNewPosix(vfConfig{})
+	q := vfNewPosix(vfConfig{}) // the other request may be served by another gateway process
+	vfMustBucket(p, "bkt")
+	key := "k"
+	one := int64(1)
+	oldBody := []byte("O")
+	_, err := p.PutObject(vfCtx(), s3response.PutObjectInput{Bucket: vfStr("bkt"), Key: &key, Body: bytes.NewReader(oldBody), ContentLength: &one})
+	zzvf.Assert(err == nil, "setup-old-object")
+	newBody := zzvf.BytesN("new_body", 1)
+	writerIsDelete := zzvf.Choice("writer", 2) == 1
+	writer := func() error {
+		if writerIsDelete {
+			_, e := q.DeleteObject(vfCtx(), &s3.DeleteObjectInput{Bucket: vfStr("bkt"), Key: &key})
+			return e
+		}
+		_, e := q.PutObject(vfCtx(), s3response.PutObjectInput{Bucket: vfStr("bkt"), Key: &key, Body: bytes.NewReader(newBody), ContentLength: &one})
+		return e
+	}
+	var rPresent, rCoherent bool
+	var rData []byte
+	var rETag string
+	reader := func() { rPresent, rData, rETag, rCoherent = vfKeyState(p, key) }
+	nested := zzvf.Choice("nesting", 2) // 0: reader inside the writer, 1: writer inside the reader
+	at := zzvf.Choice("at_step", 40)
+	zzvf.Bound("steps_max", 40)
+	start := zzvfos.M.Steps
+	fired := false
+	var wErr error
+	zzvfos.M.StepHook = func(opname, path string) {
+		if !fired && zzvfos.M.Steps-start == at+1 {
+			fired = true
+			zzvfos.M.StepHook = nil
+			zzvf.Trace("other operation runs before " + opname + " " + path)
+			if nested == 0 {
+				reader()
+			} else {
+				wErr = writer()
+			}
+		}
+	}
+	if nested == 0 {
+		wErr = writer()
+	} else {
+		reader()
+	}
+	zzvfos.M.StepHook = nil
+	zzvf.Assume(fired) // positions beyond the outer operation's last step: nothing to explore
+	zzvf.Reach("interleaved")
+	zzvf.Assert(wErr == nil, "writer-succeeds")
+	isOld := zzvf.And(zzvf.BytesEq(rData, oldBody), rETag == vfQuotedMD5(oldBody))
+	isNew := zzvf.And(zzvf.BytesEq(rData, newBody), rETag == vfQuotedMD5(newBody))
+	if rPresent {
+		zzvf.Assert(rCoherent, "get-length-matches-body")
+		if writerIsDelete {
+			zzvf.Assert(isOld, "get-returns-one-complete-write")
+		} else {
+			zzvf.Assert(zzvf.Or(isOld, isNew), "get-returns-one-complete-write")
+		}
+	} else if !writerIsDelete {
+		zzvf.Fail("overwritten-key-never-reads-as-missing")
+	}
+	// a read that starts after the write was acknowledged sees it
+	present, data, etag, _ := vfKeyState(p, key)
+	if writerIsDelete {
+		zzvf.Assert(!present, "read-after-acknowledged-delete-sees-no-object")
+	} else {
+		zzvf.Assert(zzvf.And(present, zzvf.BytesEq(data, newBody), etag == vfQuotedMD5(newBody)), "read-after-acknowledged-write-sees-it")
+	}
+}
